@@ -165,12 +165,15 @@ CLAIMED = {
               'range checker, 16 chunk modules): ordinal round trip, (y,m,d) round trip, ISO-calendar consistency; from them '
               'date_add/date_diff/date +- n mutually inverse, date_trunc(week) is the Monday of the week (idempotent), date_bin '
               'with day strides is the stride-aligned bin start; interval normalisation; account decomposition laws, possign, '
-              'sort keys; substr = Python slice laws; abs/neg/safediv/round (exponent, exactness, half-even error bound); casts '
+              'sort keys; substr = Python slice laws; maxwidth = `textwrap.shorten` modelled chunk by chunk: the result never '
+              'exceeds the width (`C18_maxwidth_bound`, every text), a text that fits is returned with its white space '
+              'normalised and nothing else (`C18_maxwidth_fits`), widths below 5 are errors; abs/neg/safediv/round (exponent, exactness, half-even error bound); casts '
               'are total (value or NULL). Tied to the code by EXHAUSTIVE correspondence over the property\'s domains: every date '
-              '1900-2100 x every unit/part, strides x origins, 605 account names, 341 strings x all index pairs in [-6,6], all '
+              '1900-2100 x every unit/part, strides x origins, 605 account names, 341 strings x all index pairs in [-6,6], the same strings '
+              'and longer texts x every width in [-1,14] for maxwidth, all '
               'decimals of <= 3 digits, cast lexicon.'),
         design='DESIGN.md §5 C18',
-        note=NOTE_COMMON + 'regex beyond literal patterns, textwrap.shorten (maxwidth) and dateutil (parse_date) are not modelled.',
+        note=NOTE_COMMON + 'regex beyond literal patterns and dateutil (parse_date) are not modelled; maxwidth (textwrap.shorten) is modelled for texts without hyphens.',
         technique='Lean 4 proof (structural + kernel enumeration of the 1900-2100 range) + exhaustive domain correspondence'),
     'C12': dict(
         text=('Lean theorems over the inventory model (insertion-ordered dict with strict lot keys, delete on zero; exact numbers): '
